@@ -31,7 +31,7 @@ check('C09', 'exploration',
 check('C10', 'exploration',
       "Part 1: every first frame up to length 4 (quick) / 6 (thorough) over a 16-symbol protocol alphabet plus continuation frames, grammar-aware mutations "
       "(placeholder numbers, attachment counts, truncation at every byte, seeded byte edits) is fed to the real Parser.Add and every finished packet is decoded "
-      "against 9 handler-signature families under recover() and a progress watchdog. Part 2: the hostile sequences are sent by a raw protocol peer to a real server "
+      "against 11 handler-signature families (incl. a struct with nil-able pointer, interface, recursive, map and slice fields) under recover() and a progress watchdog. Part 2: the hostile sequences are sent by a raw protocol peer to a real server "
       "in a child process; monitors: child exit status, canary round trip, and 'reported' (connection closed or error handler invoked) for sequences the parser rejects.",
       "Panics are visible through recover() in part 1 and as child death in part 2; the Go-client mirror of part 2 is covered only in-process (a parser panic there is process-fatal by construction).",
       "exhaustive small-input enumeration + grammar mutation under recover/watchdog monitors; child-process canary", "DESIGN.md §3 C10")
